@@ -102,18 +102,19 @@ func (p *panicSniffer) Write(b []byte) (int, error) {
 // World is one simulated deployment: a SQLite file plus the current process generation built on it
 // exactly as cmd/main.go builds it (database.Init -> sql.NewHeadersDb -> repositories -> services -> gin).
 type World struct {
-	R        *Run
-	Dir      string
-	DBPath   string
-	Cfg      *config.AppConfig
-	DB       *sqlx.DB
-	Repo     *repository.Repositories
-	Svc      *service.Services
-	Gin      *gin.Engine
-	Sniffer  *panicSniffer
-	Log      zerolog.Logger
-	ro       *stdsql.DB
-	WrapRepo func(*repository.Repositories) // optional decorator installation (fault injection, yields)
+	R            *Run
+	Dir          string
+	DBPath       string
+	Cfg          *config.AppConfig
+	DB           *sqlx.DB
+	viaSimDriver bool // opened through the wrapper SQL driver (layer 2)
+	Repo         *repository.Repositories
+	Svc          *service.Services
+	Gin          *gin.Engine
+	Sniffer      *panicSniffer
+	Log          zerolog.Logger
+	ro           *stdsql.DB
+	WrapRepo     func(*repository.Repositories) // optional decorator installation (fault injection, yields)
 	// AfterNewServices runs between service.NewServices and route registration (replace a service's collaborator).
 	AfterNewServices func(w *World)
 	// AfterServices lets an engine add notification channels etc. after every (re)start.
@@ -184,6 +185,7 @@ func (w *World) OpenSim() {
 		Infra("database.Init: %v", err)
 	}
 	_ = db.Close()
+	w.viaSimDriver = true
 	w.OpenWith(openSim(w.DBPath))
 }
 
@@ -237,7 +239,28 @@ func (w *World) Close() {
 
 func (w *World) Restart() {
 	w.Close()
+	if w.viaSimDriver {
+		w.OpenSim() // the new generation sits on the wrapper driver as well
+		return
+	}
 	w.Open()
+}
+
+// WithWriteInFlight runs body while another connection of the service's own pool has a write transaction open on the
+// given table (a no-op update of every row: it takes the write lock and changes nothing; rolled back afterwards) -
+// the state every reader meets while the sync engine is in the middle of storing a batch. Only for read-only bodies:
+// a second writer would wait for the first one in real time.
+func (w *World) WithWriteInFlight(table, col string, body func()) {
+	tx, err := w.DB.Beginx()
+	if err != nil {
+		Infra("in-flight write: begin: %v", err)
+	}
+	defer func() { _ = tx.Rollback() }()
+	if _, err := tx.Exec("UPDATE " + table + " SET " + col + " = " + col); err != nil {
+		Infra("in-flight write: %v", err)
+	}
+	w.R.Fault("reads-during-open-write-transaction")
+	body()
 }
 
 // Destroy removes the scratch files of the run.
